@@ -20,6 +20,40 @@ CLAIMED = {
             "contents, hence root = yp_root. External anchors: ethereum/tests vectors evaluated with the Gallina Keccak-256. Database-level "
             "link by correspondence: impl root = troot keccak256 (T run) = yp_root keccak256 (mapping) at checkpoints, evaluated in Coq.",
             "Coq proof (invariant + uniqueness + specification equality) + in-Coq evaluation of the Yellow-Paper root for the oracle", "5/C02", ""),
+    "C03": ("Theorems over the database-level model, any hash function, explicit finite no-collision premise: get_from_proof against ANY list "
+            "of well-formed nodes and any root returns the true value or BadTrieProof (C03_sound); a withheld hashed node on the path gives "
+            "BadTrieProof; get_proof verifies to exactly get(key) (C03_complete, with machine-checked counterexamples showing each premise "
+            "is needed); proof nodes lie on the key's path; reads over content-addressed stores are deterministic.",
+            "Coq proof (pure mirrors of the read path + determinism over content-addressed stores) + vm_compute correspondence with fault sequences", "5/C03", ""),
+    "C04": ("Theorems over the database-level model: every set/delete/batch on a non-pruning trie, whatever its outcome incl. a failing write "
+            "at any index, only adds entries keyed by the hash of their value, removes nothing, and moves the root only on success; reads of "
+            "any root succeed identically on every super-store (old roots stay readable).",
+            "Coq proof (effect discipline by induction on fuel; read monotonicity) + vm_compute correspondence over shared stores with write failures", "5/C04", ""),
+    "C05": ("Theorems: leaving the block by an exception at any point restores root, database and reference counts exactly (C05_abort); a "
+            "failing commit on a non-pruning trie keeps the root and every earlier entry. 'added nodes are reachable from the new root / "
+            "everything needed is present' after a normal exit is not proved: it rests on the reachable-set oracle and correspondence.",
+            "Coq proof (ScratchDB wrapped-store invariance through every D-level function) + vm_compute correspondence with every abort point / failing commit write", "5/C05", ""),
+    "C07": ("Theorems: on a sub-store every read gives the same result as on the complete store or a Missing* error naming a hash absent here "
+            "and present there; reports are truthful (hash absent, correct root/key, prefix = exact nibble path to the reference); a failed "
+            "set/delete leaves the whole state untouched (for the real hash; counterexample for a degenerate H machine-checked). Retry "
+            "convergence is checked by the harness loop only.",
+            "Coq proof + vm_compute correspondence over every single-node and random-subset removal", "5/C07", ""),
+    "C08": ("Theorems (tree level, every canonical trie, every path): blank iff no key below; the node at a path is the canonical sub-trie; what "
+            "a caller sees (incl. simulated nodes) is the annotation of THE canonical node for the keys below; partial-path fields; "
+            "traverse_from composes; root_node. Database-level link by correspondence + the Yellow-Paper description evaluated in Coq.",
+            "Coq proof (structural induction, canonical uniqueness) + vm_compute correspondence + in-Coq specification oracle", "5/C08", ""),
+    "C10": ("Theorems (tree level): items = contents, strictly ascending, each once; next(k) / next() are the strict successor / minimum by "
+            "the mirrored _get_key_after / _get_next_key; nodes() preorder = ascending prefixes, each node exactly once and equal to "
+            "traverse(prefix). The fog loop of nodes() is tied by correspondence to tnodes evaluated in Coq.",
+            "Coq proof + vm_compute correspondence + in-Coq specification oracle", "5/C10", ""),
+    "C12": ("Theorems (tree-level mirror of _set/_set_kv_node/_set_branch_node, every history over non-empty keys, every H): get = map model "
+            "with the refusal rule; delete/delete_subtrie semantics incl. when they may be refused; a refused call changes nothing; the tree "
+            "is the canonical construction of its contents, hence root = bin_root, history independent, blank when empty.",
+            "Coq proof + vm_compute correspondence + in-Coq canonical-root oracle", "5/C12", ""),
+    "C18": ("Theorems: in the API-layer model every call with an ill-typed / ill-sized argument returns the same state and the stated exception "
+            "class (immediate from the definitions, as DESIGN says). The assurance for the code is the exhaustive correspondence: every "
+            "public entry point x argument position x ill-typed kind x prior history, with the public API re-derived from the classes.",
+            "Coq proof (by computation) + exhaustive vm_compute correspondence", "5/C18", ""),
     "C11": ("Theorems (closed): sorted prefix-free invariant of every reachable fog, explore = set replacement, exact rejection conditions, "
             "commutation of independent explorations, mark_all_complete = repeated explore, is_complete, serialize round trip, full "
             "specifications of nearest_unknown / nearest_right incl. when each exception is raised. Model = pure functions; receiver "
